@@ -4,6 +4,7 @@ import (
 	"fmt"
 	"go/ast"
 	"go/constant"
+	"go/printer"
 	"go/token"
 	"go/types"
 	"sort"
@@ -414,6 +415,31 @@ func genXdr() string {
 				}
 				return true
 			})
+			// the wrapper must be the canonical sequence: decode the arguments, give up on a decode error, call the
+			// procedure, return its result; anything else (order, a missing error check, extra statements) is recorded
+			// as an argument type no RFC procedure has, which breaks the dispatch obligation of C16
+			var got []string
+			for _, st := range fd.Body.List {
+				var sb strings.Builder
+				printer.Fprint(&sb, x.fset, st)
+				got = append(got, strings.Join(strings.Fields(sb.String()), " "))
+			}
+			var want []string
+			callArgs := ""
+			if in != "void" {
+				want = append(want, "var in "+in, "in.Xdr(args)", "err = args.Error()", "if err != nil { return }")
+				callArgs = "in"
+			}
+			call := "w.h." + h + "(" + callArgs + ")"
+			if out != "void" {
+				want = append(want, "var out "+out, "out = "+call)
+			} else {
+				want = append(want, "var out xdr.Void", call)
+			}
+			want = append(want, "return &out, nil")
+			if strings.Join(got, " ; ") != strings.Join(want, " ; ") {
+				in = "noncanonical-wrapper"
+			}
 			wrappers[rn+"."+fd.Name.Name] = [3]string{in, h, out}
 		}
 	}
